@@ -429,17 +429,19 @@ def run_plan(base, item, seed):
     if misuse:
         return out
     # (b) the same plan as a SchemaVisitor through transform_schema (clone based)
-    for style in ("constructor", "registered"):
+    #     in two styles of the "tag" effect: the hook returns a rebuilt element / edits the element it was handed and returns it
+    for style, in_place in (("constructor", False), ("registered", False), ("constructor", True)):
         try:
             src = opsreplay.realize(base, opsreplay.Ids(), style)
-            res = transform_schema(src, dirreplay.plan_visitor(plan))
+            res = transform_schema(src, dirreplay.plan_visitor(plan, in_place))
         except Exception as e:
-            out.append(("dir/visitor/raises/%s/%s" % (type(e).__name__, pk), {"error": repr(e)[:300], "resolvers": style}))
+            out.append(("dir/visitor/raises/%s/%s" % (type(e).__name__, pk), {"error": repr(e)[:300], "resolvers": style, "in_place": in_place}))
             continue
         if res is src:
             out.append(("dir/visitor/returns-source-object/%s" % pk, {}))
-        judge("visitor", res, exp_full)
-        judge("visitor", src, base_norm, role="source")
+        b = "visitor-in-place" if in_place else "visitor"
+        judge(b, res, exp_full)
+        judge(b, src, base_norm, role="source")
     return out
 
 
